@@ -51,8 +51,12 @@ def correspond(ctx, scale):
             x = vqrec.grid(rng, (b, n, d * heads))
             mode = rng.choice(['train'] * 5 + ['eval', 'frozen'])
             vq.train(mode != 'eval')
+            ckw = {'freeze_codebook': True} if mode == 'frozen' else {}
+            if (t + ci) % 3 == 2:
+                ckw['indices'] = torch.randint(0, K, (b, n, heads) if heads > 1 else (b, n))
+                dist['with_target_indices'] = dist.get('with_target_indices', 0) + 1
             try:
-                ret, recs = vqrec.record_call(vq, x, **({'freeze_codebook': True} if mode == 'frozen' else {}))
+                ret, recs = vqrec.record_call(vq, x, **ckw)
             except Exception as ex:
                 failures.append({'key': f'vq:exception:{type(ex).__name__}', 'what': f'VectorQuantize({kw}) raised {ex!r}', 'case': dict(kw=kw, step=t)})
                 break
@@ -111,7 +115,11 @@ def correspond(ctx, scale):
                 cb.forward = mk(cb, orig)
             try:
                 state0 = vqrec.cb_state(cbs[0])
-                rvq(x)
+                if (t + ci) % 2 == 1:
+                    rvq(x, indices=torch.randint(0, K, (2, 3, nq)))     # cross-entropy-to-target-codes call: usage update and dead-code revival still apply
+                    dist['with_target_indices'] = dist.get('with_target_indices', 0) + 1
+                else:
+                    rvq(x)
             except Exception as ex:
                 failures.append({'key': f'rvq:exception:{type(ex).__name__}', 'what': f'ResidualVQ({kw}) raised {ex!r}', 'case': dict(kw=kw)})
                 break
